@@ -387,7 +387,7 @@ def zoo_piece(rng, quotes=True, tags=True, special=True):
         n = rng.range(2, 6)
         return "\n".join(rng.choice(["-", "=", "~", "_"]) * rng.range(2, 9) for _ in range(n))
     if quotes:
-        return " ".join(rng.choice(['"a-b"', '"|"', '"x\\"y"', '""', '"一二"', '"<&>"', "--", "+", "ab", '3"', '\\"x"', '"']) for _ in range(rng.range(1, 4)))
+        return " ".join(rng.choice(['"a-b"', '"|"', '"x\\"y"', '""', '"一二"', '"<&>"', '"&#60;"', '"&lt;&#x3c;"', "--", "+", "ab", '3"', '\\"x"', '"']) for _ in range(rng.range(1, 4)))
     return label(rng, special)
 
 
